@@ -235,7 +235,7 @@ repeated squeezers, in any order) the merge loop of `Xunitary.compile` (pop / in
 recomputed after every merge) terminates within `len(B)` iterations and
 * either returns a list with exactly one squeezer per pair, the pairs in the order of their first
   occurrence in `B` (so commands on other pairs keep their relative order), each squeezer carrying the sum of
-  the `r` of all commands on its pair and their common phase,
+  the `r` of all commands on its pair (inverted commands counted negatively: `effR`) and their common phase,
 * or raises a `CircuitError`, and then two commands on one pair really have different phases;
 when `len(B) ≤ half` the list is returned untouched.  No other error (index error, exhausted loop) is possible. -/
 theorem s2_merge_spec (half : Nat) (B : List S2) :
@@ -244,15 +244,15 @@ theorem s2_merge_spec (half : Nat) (B : List S2) :
       (B.length ≤ half → out = B) ∧
       (half < B.length →
         (out.map S2.key).Nodup ∧ out.map S2.key = firstOcc (B.map S2.key) ∧
-        (∀ c ∈ out, c.r = sumR c.key B) ∧ (∀ c ∈ out, ∀ d ∈ B, d.key = c.key → d.phi = c.phi))
+        (∀ c ∈ out, c.effR = sumR c.key B) ∧ (∀ c ∈ out, ∀ d ∈ B, d.key = c.key → d.phi = c.phi))
     | .error e => e = .circuit ∧ half < B.length ∧ ∃ c ∈ B, ∃ d ∈ B, c.key = d.key ∧ c.phi ≠ d.phi :=
   mergeS2_spec half B
 
 /-- two squeezers on each of two pairs, interleaved (the input on which the unrepaired loop used stale
 positions), and a phase clash -/
-example : (mergeS2 2 [⟨0, 2, 1/2, 0⟩, ⟨1, 3, 1/4, 0⟩, ⟨0, 2, 1/8, 0⟩, ⟨1, 3, 1/2, 0⟩]).toOption
-      = some [⟨0, 2, 5/8, 0⟩, ⟨1, 3, 3/4, 0⟩] ∧
-    (match mergeS2 2 [⟨1, 3, 1/2, 0⟩, ⟨1, 3, 1/2, 0⟩, ⟨0, 2, 1/4, 0⟩, ⟨0, 2, 1/4, 1/2⟩] with
+example : (mergeS2 2 [⟨0, 2, 1/2, 0, false⟩, ⟨1, 3, 1/4, 0, false⟩, ⟨0, 2, 1/8, 0, true⟩, ⟨1, 3, 1/2, 0, false⟩]).toOption
+      = some [⟨0, 2, 3/8, 0, false⟩, ⟨1, 3, 3/4, 0, false⟩] ∧
+    (match mergeS2 2 [⟨1, 3, 1/2, 0, false⟩, ⟨1, 3, 1/2, 0, false⟩, ⟨0, 2, 1/4, 0, false⟩, ⟨0, 2, 1/4, 1/2, false⟩] with
       | .error e => decide (e = .circuit) | .ok _ => false) = true := by
   decide +kernel
 
@@ -261,11 +261,11 @@ command sits where the first of them was (refinement of the index surgery, for e
 theorem s2_merge_one_refines (B : List S2) (k : Key) (h : k ∈ B.map S2.key) :
     mergeOne B (k, positions k (B.map S2.key)) =
       match accLoop (B.filter (fun c => c.key = k)).reverse 0 0 0 with
-      | .ok (r, phi) => .ok (mergeAt k ⟨k.1, k.2, r, phi⟩ B)
+      | .ok (r, phi) => .ok (mergeAt k ⟨k.1, k.2, r, phi, false⟩ B)
       | .error e => .error e :=
   mergeOne_spec B k h
 
-example : (0, 2) ∈ ([⟨1, 3, 1, 0⟩, ⟨0, 2, 1/2, 0⟩, ⟨0, 2, 1/4, 0⟩] : List S2).map S2.key := by decide +kernel
+example : (0, 2) ∈ ([⟨1, 3, 1, 0, false⟩, ⟨0, 2, 1/2, 0, true⟩, ⟨0, 2, 1/4, 0, false⟩] : List S2).map S2.key := by decide +kernel
 
 /-! ## Borealis: loop-offset insertion -/
 
